@@ -26,6 +26,8 @@ type Case struct {
 	Shape     string
 	ExecFmt   *string // prefix the execution's formatter puts before the code (nil: no WithIssueFormatter)
 	CtxOK     bool
+	Opts      []string // the call's execution options as model terms (OCtx k v / OFmt prefix), in the order passed
+	CtxViews  string   // the distinct ctx.Get answers of the callbacks over the probe keys (a Gallina list)
 	Repeats   []string // canonical renderings of repeated runs (C09 oracle)
 	dest0v    reflect.Value
 	PoolMode  string
@@ -273,14 +275,30 @@ func NewCase(g *Gen, id int, forceValidate *bool) *Case {
 	// execution options: context values (checked by the callbacks' ctx.Get)
 	ctxVals := map[string]any{}
 	var opts []z.ExecOption
+	fork := g.R.Fork(0x0b7105)
 	if g.R.P(50) {
 		ctxVals["k1"] = fmt.Sprintf("v%d", g.R.Intn(100))
 		opts = append(opts, z.WithCtxValue("k1", ctxVals["k1"]))
+		c.Opts = append(c.Opts, fmt.Sprintf("OCtx \"k1\" %s", CoqStr(fmt.Sprint(ctxVals["k1"]))))
 	}
 	if g.R.P(12) {
 		tag := fmt.Sprintf("F%d:", g.R.Intn(100))
+		if fork.P(25) {
+			// a formatter option that a later one replaces
+			opts = append(opts, z.WithIssueFormatter(func(i *z.ZogIssue, _ z.Ctx) { i.SetMessage("replaced:" + i.Code) }))
+			c.Opts = append(c.Opts, `OFmt "replaced:"`)
+		}
 		c.ExecFmt = &tag
 		opts = append(opts, z.WithIssueFormatter(func(i *z.ZogIssue, _ z.Ctx) { i.SetMessage(tag + i.Code) }))
+		c.Opts = append(c.Opts, "OFmt "+CoqStr(tag))
+	}
+	if fork.P(20) {
+		// the same key again, and other keys, after the formatter: the last value of a key is the one read
+		for _, k := range []string{"k1", "k3", "k1"}[:1+fork.Intn(3)] {
+			ctxVals[k] = fmt.Sprintf("w%d", fork.Intn(100))
+			opts = append(opts, z.WithCtxValue(k, ctxVals[k]))
+			c.Opts = append(c.Opts, fmt.Sprintf("OCtx %s %s", CoqStr(k), CoqStr(fmt.Sprint(ctxVals[k]))))
+		}
 	}
 
 	var dest0 reflect.Value
@@ -463,7 +481,30 @@ func NewCase(g *Gen, id int, forceValidate *bool) *Case {
 			}
 		}
 	}
+	c.CtxViews = ctxViews(c.Obs.Calls)
 	return c
+}
+
+// ctxViews renders the distinct answers the callbacks got from ctx.Get over the probe keys.
+func ctxViews(calls []CallRec) string {
+	seen := map[string]bool{}
+	var views []string
+	for i := range calls {
+		var kv []string
+		for _, k := range ctxProbe {
+			v := "None"
+			if x := calls[i].Ctx[k]; x != nil {
+				v = "(Some " + CoqStr(fmt.Sprint(x)) + ")"
+			}
+			kv = append(kv, "("+CoqStr(k)+", "+v+")")
+		}
+		view := "[" + strings.Join(kv, "; ") + "]"
+		if !seen[view] {
+			seen[view] = true
+			views = append(views, view)
+		}
+	}
+	return "[" + strings.Join(views, "; ") + "]"
 }
 
 // expectedArgType: the documented dynamic type of a callback's argument - the value itself for
@@ -518,10 +559,15 @@ func (c *Case) Coq() string {
 	} else {
 		data = "(DVal " + CoqIVal(*c.In) + ")"
 	}
-	ef := "None"
-	if c.ExecFmt != nil {
-		ef = "(Some " + CoqStr(*c.ExecFmt) + ")"
+	optTerms := c.Opts
+	if optTerms == nil && c.ExecFmt != nil {
+		optTerms = []string{"OFmt " + CoqStr(*c.ExecFmt)}
 	}
+	views := c.CtxViews
+	if views == "" {
+		views = "[]"
+	}
+	ef := "[" + strings.Join(optTerms, "; ") + "] " + views
 	return fmt.Sprintf("  (%s\n   EC %d %s %s\n     %s\n     %s %s %s %s %s %s\n     %s)",
 		c.oracles(), c.ID, mode, c.schemaCoq(), data, c.Dest0,
 		CoqBool(c.Known), CoqBool(c.Collide), CoqBool(c.CtxOK && c.TypesOK), CoqBool(c.RepeatsAgree()), ef, CoqObserved(&c.Obs, c.Schema))
